@@ -21,7 +21,10 @@ from pv.core import Sub, EnumSub, Violation, call, call_or, short
 from pv.codec import build, Env, token, vtoken, is_nan_spec
 
 ASSUMPTIONS = [
-    'cells are None, ints, finite python floats, float NaN objects (2 identities) and strings, as in the quantifier (no +-inf: is_nan treats inf as NaN by design; no bools, no dates)',
+    'cells are None, ints, python floats incl. +-inf, float NaN objects (2 identities) and strings, as in the quantifier (no bools, no dates)',
+    'pyg_base.is_nan counts +-inf as NaN by design and the statement does not say whether an infinite cell satisfies a NaN condition: a row whose fate hangs on that '
+    'is only required to be in exactly ONE of inc and exc, in order (find_ / one_or_none: either reading accepted); for every other condition inf is an ordinary float; '
+    'a scalar +-inf is never used as a condition value (the library reads it as a NaN condition), only inside lists',
     'column names come from {a,ab,b,ba,c,k} (nested names on purpose): never a dictable/Dict method, a constructor parameter (data, columns) or a keyword of one_or_none (exc, find)',
     'a condition is a scalar value (int / finite float / str), a list of 0-3 admissible non-NaN values (None allowed in the list), None, a NaN object, or a compiled regex; "value" means python equality (cell is v or cell == v, so 1 matches 1.0)',
     'lists of admissible values never contain NaN (membership of a NaN in a list is identity based in python; the statement has NaN as a condition of its own)',
@@ -41,7 +44,7 @@ KNOWN = {}
 COLS = ['a', 'ab', 'b', 'ba', 'c', 'k']                  # names that are prefixes / suffixes / substrings of one another, and equal to cell values
 STR_PATTERNS = ['a', '^a', 'b$', '.', '', 'A|b']
 # patterns that match str() of a NON-string cell (1, 1.0, 2.5, -1.5, 1000, None, nan): a regex condition must still reject those cells
-COERCE_PATTERNS = ['1', '0', r'\.5', '-', 'N', 'on', 'nan', '^[0-9.]+$']
+COERCE_PATTERNS = ['1', '0', r'\.5', '-', 'N', 'on', 'nan', '^[0-9.]+$', 'inf']
 PATTERNS = STR_PATTERNS + COERCE_PATTERNS
 LARGE_QUICK = [64, 65, 100, 128, 200]
 LARGE_THOROUGH = [64, 65, 100, 128, 200, 257, 500]
@@ -63,13 +66,21 @@ def _is_nan(x):
     return isinstance(x, float) and x != x
 
 
-def _sat(cell, cond, env):
-    """does `cell` satisfy the column condition `cond` = [kind, payload] (the statement's semantics)"""
+def _is_inf(x):
+    return isinstance(x, float) and x in (float('inf'), float('-inf'))
+
+
+def _sat(cell, cond, env, inf_nan=None):
+    """
+    does `cell` satisfy the column condition `cond` = [kind, payload] (the statement's semantics)?
+    The one case the statement leaves open is a NaN condition on an infinite cell (pyg_base.is_nan counts +-inf as NaN by design):
+    there the answer is `inf_nan` - None = undecided, True / False = one of the two readings. Everywhere else inf is an ordinary float.
+    """
     kind, payload = cond
     if kind == 'none':
         return cell is None
     if kind == 'nan':
-        return _is_nan(cell)
+        return inf_nan if _is_inf(cell) else _is_nan(cell)
     if kind == 'regex':
         return isinstance(cell, str) and re.search(payload, cell) is not None
     if kind == 'val':
@@ -242,8 +253,10 @@ def _condition(spec_cond, data, env):
                 k.update(extra)
             return getattr(table, method)(*[dict(p) for p in pos], **k)
 
-        def selected(i):
-            return all(_sat(data[c][i], [k, p], env) for c, k, p in conds)
+        def selected(i, inf_nan=None):
+            """True / False, or None when the row's fate hangs on an infinite cell under a NaN condition"""
+            verdicts = [_sat(data[c][i], [k, p], env, inf_nan) for c, k, p in conds]
+            return False if any(v is False for v in verdicts) else None if any(v is None for v in verdicts) else True
         caller.values = values
         return desc, caller, selected
     else:
@@ -258,9 +271,33 @@ def _condition(spec_cond, data, env):
         def caller(table, method, extra=None):
             return getattr(table, method)(f, **(extra or {}))
 
-        def selected(i):
+        def selected(i, inf_nan=None):
             return bool(pred(*[data[c][i] for c in args]))
         return desc, caller, selected
+
+
+def _check_weak_partition(tdesc, desc, all_rows, status, got_inc, got_exc):
+    """
+    rows with status True must be in inc, rows with status False in exc, rows with status None (infinite cell under a NaN condition)
+    in exactly one of the two - and both results keep the table's relative order. Decided by walking the table once while tracking
+    every possible number of rows already consumed from inc (the rest came from exc).
+    """
+    inc, exc = list(got_inc), list(got_exc)
+    states = {0}
+    for i, row in enumerate(all_rows):
+        new = set()
+        for p in states:
+            q = i - p
+            if status[i] is not False and p < len(inc) and inc[p] == row:
+                new.add(p + 1)
+            if status[i] is not True and q < len(exc) and exc[q] == row:
+                new.add(p)
+        check(new, 'dictable(%s): inc%s = %s and exc%s = %s do not partition the table in order: row %s is in neither result at its place '
+                   '(rows satisfying the condition must be in inc, rows failing it in exc, rows whose infinite cell meets a NaN condition in exactly one of them)',
+              tdesc, desc, got_inc, desc, got_exc, i)
+        states = new
+    check(len(inc) in states and len(inc) + len(exc) == len(all_rows),
+          'dictable(%s): inc%s = %s and exc%s = %s together hold %s rows of a table of %s', tdesc, desc, got_inc, desc, got_exc, len(inc) + len(exc), len(all_rows))
 
 
 def _shape_classes(spec, cols, n):
@@ -283,9 +320,11 @@ def run_partition(spec):
     desc, caller, selected = _condition(spec['cond'], data, env)
     tdesc = _T(short({c: data[c] for c in cols}, 200))
     all_rows = _rows(data, scols, n)
-    sel = [i for i in range(n) if selected(i)]
+    status = [selected(i) for i in range(n)]
+    undecided = [i for i in range(n) if status[i] is None]        # infinite cell under a NaN condition: either part, but exactly one
+    sel = [i for i in range(n) if status[i]]
     selset = set(sel)
-    unsel = [i for i in range(n) if i not in selset]
+    unsel = [i for i in range(n) if status[i] is False]
     exp_inc = [all_rows[i] for i in sel]
     exp_exc = [all_rows[i] for i in unsel]
     no_cond = spec['cond']['kind'] == 'filters' and not spec['cond']['conds']
@@ -295,15 +334,19 @@ def run_partition(spec):
     _unchanged(_T('inc%s' % desc), d, snap)
     if no_cond:
         check(list(got_inc) == all_rows, 'inc() with no condition is not the identity on dictable(%s): it returned %s', tdesc, got_inc)
-    check(list(got_inc) == exp_inc, 'dictable(%s).inc%s returned %s; the rows satisfying the condition are rows %s of the table, in that order',
-          tdesc, desc, got_inc, sel)
+    if not undecided:
+        check(list(got_inc) == exp_inc, 'dictable(%s).inc%s returned %s; the rows satisfying the condition are rows %s of the table, in that order',
+              tdesc, desc, got_inc, sel)
 
     if not no_cond:
         exc = call('dictable(%s).exc%s' % (tdesc, desc), caller, d, 'exc')
         got_exc = _table_rows(_T('dictable(%s).exc%s' % (tdesc, desc)), exc, cols)
         _unchanged(_T('exc%s' % desc), d, snap)
-        check(list(got_exc) == exp_exc, 'dictable(%s).exc%s returned %s; the rows NOT satisfying the condition are rows %s of the table, in that order',
-              tdesc, desc, got_exc, unsel)
+        if not undecided:
+            check(list(got_exc) == exp_exc, 'dictable(%s).exc%s returned %s; the rows NOT satisfying the condition are rows %s of the table, in that order',
+                  tdesc, desc, got_exc, unsel)
+        else:
+            _check_weak_partition(tdesc, desc, all_rows, status, got_inc, got_exc)
         check(len(got_inc) + len(got_exc) == n, 'inc%s and exc%s hold %s + %s rows of a table of %s', desc, desc, len(got_inc), len(got_exc), n)
 
     # idempotent: the same condition applied to the result selects all of it
@@ -357,6 +400,12 @@ def run_partition(spec):
         cls.append('ret=' + spec['cond'].get('ret', 'bool'))
         if spec['cond'].get('ret', 'bool') != 'bool':
             cls.append('nonbool_result')
+    if undecided:
+        cls.append('inf_cell_under_nan_condition')
+        sel = sel + undecided[:len(got_inc) - len(sel)]         # for the shape classes only: as many rows as inc really returned
+        sel.sort()
+    if any(_is_inf(x) for c in cols for x in data[c]):
+        cls.append('inf_cell')
     if n:
         if sel and len(sel) < n:
             cls.append('both_nonempty')
@@ -385,53 +434,69 @@ def run_partition(spec):
 
 # ----------------------------------------------------------------------------- oracle: find_<col>, one_or_none
 
+def _judge_find(what, ok, res, sel, vals):
+    """find_<col> against the selection `sel` holding `vals`; returns the class label"""
+    toks = set(vtoken(v) for v in vals)
+    if len(sel) == 0:
+        check(not ok, '%s returned %s although no row satisfies the condition (must raise ValueError)', what, res)
+        return 'none_selected'
+    if len(sel) == 1:
+        check(ok, '%s raised %s although exactly one row (%s) satisfies the condition', what, res, sel[0])
+        check(token(res) == token(vals[0]), '%s returned %s, the selected row %s holds %s', what, res, sel[0], vals[0])
+        return 'single_row'
+    if len(toks) >= 2:
+        check(not ok, '%s returned %s although the selected rows %s hold the different values %s (must raise ValueError)', what, res, sel, vals)
+        return 'multiple_values'
+    if toks == {('nan',)}:
+        check(not ok or _is_nan(res), '%s returned %s, the selected rows hold only NaN', what, res)
+        return 'several_nan'            # accepted either way, see ASSUMPTIONS
+    check(ok, '%s raised %s although all selected rows %s hold the one value %s', what, res, sel, vals[0])
+    check(vtoken(res) in toks, '%s returned %s, the selected rows %s all hold %s', what, res, sel, vals[0])
+    return 'unique_from_many'
+
+
+def _judge_one(w1, ok1, res1, sel1, find, data, scols):
+    """one_or_none against the selection `sel1`"""
+    if len(sel1) == 0:
+        check(ok1 and res1 is None, '%s gave %s although no row is selected (must return None)', w1, res1)
+    elif len(sel1) >= 2:
+        check(not ok1, '%s returned %s although rows %s are selected (must raise ValueError)', w1, res1, sel1)
+    else:
+        i = sel1[0]
+        check(ok1, '%s raised %s although exactly row %s is selected', w1, res1, i)
+        if find is None:
+            check(isinstance(res1, dict) and sorted(res1.keys()) == scols, '%s returned %s, not the row with columns %s', w1, res1, scols)
+            check([token(res1[c]) for c in scols] == [token(data[c][i]) for c in scols], '%s returned %s, row %s is %s', w1, res1, i, {c: data[c][i] for c in scols})
+        else:
+            check(token(res1) == token(data[find][i]), '%s returned %s, row %s holds %s', w1, res1, i, data[find][i])
+
+
 def run_find(spec):
     env = Env()
     d, data, n = _build_table(spec, env)
     cols = spec['cols']
+    scols = sorted(cols)
     snap = _snapshot(d)
     col = spec['col']
     desc, caller, selected = _condition(spec['cond'], data, env)
     tdesc = _T(short({c: data[c] for c in cols}, 200))
-    sel = [i for i in range(n) if selected(i)]
-    vals = [data[col][i] for i in sel]
-    toks = set(vtoken(v) for v in vals)
-    what = _T('dictable(%s).find_%s%s' % (tdesc, col, desc))
-    ok, res = call_or(what, (ValueError,), caller, d, 'find_' + col)
-    _unchanged(_T('find_%s%s' % (col, desc)), d, snap)
     cls = ['ncols=%i' % len(cols), 'cond=' + (spec['cond']['kind'])] + _shape_classes(spec, cols, n)
     if spec['cond']['kind'] == 'callable' and spec['cond'].get('ret', 'bool') != 'bool':
         cls += ['nonbool_result', 'ret=' + spec['cond']['ret']]
-    if len(sel) == 0:
-        cls.append('none_selected')
-        check(not ok, '%s returned %s although no row satisfies the condition (must raise ValueError)', what, res)
-    elif len(sel) == 1:
-        cls.append('single_row')
-        check(ok, '%s raised %s although exactly one row (%s) satisfies the condition', what, res, sel[0])
-        check(token(res) == token(vals[0]), '%s returned %s, the selected row %s holds %s', what, res, sel[0], vals[0])
-    elif len(toks) >= 2:
-        cls.append('multiple_values')
-        check(not ok, '%s returned %s although the selected rows %s hold the different values %s (must raise ValueError)', what, res, sel, vals)
-    elif toks == {('nan',)}:
-        cls.append('several_nan')       # accepted either way, see ASSUMPTIONS
-        check(not ok or _is_nan(res), '%s returned %s, the selected rows hold only NaN', what, res)
-    else:
-        cls.append('unique_from_many')
-        check(ok, '%s raised %s although all selected rows %s hold the one value %s', what, res, sel, vals[0])
-        check(vtoken(res) in toks, '%s returned %s, the selected rows %s all hold %s', what, res, sel, vals[0])
-
-    # ---- one_or_none: observation point of the same selection
-    scols = sorted(cols)
     exc_cond = spec.get('exc')          # [col, kind, payload] or None
-    sel1 = sel
     extra = {}
     edesc = ''
     if exc_cond is not None:
         ec, ek, ep = exc_cond
-        sel1 = [i for i in sel if not _sat(data[ec][i], [ek, ep], env)]
         extra['exc'] = {ec: _cond_value([ek, ep], env)}
         edesc = ' with exc = %s' % short(extra['exc'], 80)
         cls.append('one_or_none_exc')
+
+    # ---- the calls
+    what = _T('dictable(%s).find_%s%s' % (tdesc, col, desc))
+    ok, res = call_or(what, (ValueError,), caller, d, 'find_' + col)
+    _unchanged(_T('find_%s%s' % (col, desc)), d, snap)
+    ones = []
     for find in ([None, col] if spec.get('one_find', True) else [None]):
         kw = dict(extra)
         if find is not None:
@@ -439,18 +504,28 @@ def run_find(spec):
         w1 = _T('dictable(%s).one_or_none%s%s%s' % (tdesc, desc, edesc, '' if find is None else ' find = %s' % find))
         ok1, res1 = call_or(w1, (ValueError,), caller, d, 'one_or_none', kw)
         _unchanged(_T('one_or_none%s' % desc), d, snap)
-        if len(sel1) == 0:
-            check(ok1 and res1 is None, '%s gave %s although no row is selected (must return None)', w1, res1)
-        elif len(sel1) >= 2:
-            check(not ok1, '%s returned %s although rows %s are selected (must raise ValueError)', w1, res1, sel1)
-        else:
-            i = sel1[0]
-            check(ok1, '%s raised %s although exactly row %s is selected', w1, res1, i)
-            if find is None:
-                check(isinstance(res1, dict) and sorted(res1.keys()) == scols, '%s returned %s, not the row with columns %s', w1, res1, scols)
-                check([token(res1[c]) for c in scols] == [token(data[c][i]) for c in scols], '%s returned %s, row %s is %s', w1, res1, i, {c: data[c][i] for c in scols})
-            else:
-                check(token(res1) == token(data[find][i]), '%s returned %s, row %s holds %s', w1, res1, i, data[find][i])
+        ones.append((w1, ok1, res1, find))
+
+    # ---- the readings: an infinite cell under a NaN condition may count as NaN or not (each of inc and exc may decide, see _sat)
+    undecided = any(selected(i) is None for i in range(n)) or \
+        (exc_cond is not None and any(_sat(data[exc_cond[0]][i], exc_cond[1:], env) is None for i in range(n)))
+    readings = [(True, True), (False, False), (True, False), (False, True)] if undecided else [(None, None)]
+    first = None
+    for inc_reading, exc_reading in readings:
+        try:
+            sel = [i for i in range(n) if selected(i, inc_reading)]
+            label = _judge_find(what, ok, res, sel, [data[col][i] for i in sel])
+            sel1 = sel if exc_cond is None else [i for i in sel if not _sat(data[exc_cond[0]][i], exc_cond[1:], env, exc_reading)]
+            for w1, ok1, res1, find in ones:
+                _judge_one(w1, ok1, res1, sel1, find, data, scols)
+            break
+        except Violation as v:
+            first = first or v
+    else:
+        raise first
+    cls.append(label)
+    if undecided:
+        cls.append('inf_cell_under_nan_condition')
     cls.append('one_or_none=%s' % ('none' if not sel1 else 'row' if len(sel1) == 1 else 'several'))
     nt = len(sel) != 1
     return dict(nt=nt, cls=cls)
@@ -475,6 +550,8 @@ _FLAVOURS = {
     'one_onefloat': st.one_of(st.sampled_from([1, 1.0, 2]), _NAN, st.none()),
     'strs_none_ints': st.one_of(_STRS, st.none(), st.integers(0, 1)),
     'none_nan': st.one_of(st.none(), _NAN),
+    'inf_nan': st.one_of(st.sampled_from([['inf', 1], ['inf', -1]]), _NAN, st.integers(0, 1)),       # +-inf next to NaN: is_nan counts both
+    'inf_floats': st.one_of(st.just(['inf', 1]), _FLOATS, st.none(), st.just(['inf', -1])),
     'big': st.sampled_from([1000, 1000.0, 'ab', 'aba', 2.5, 10]),        # objects CPython does not share: equal is not identical
 }
 _FLAVOUR = st.sampled_from(['mixed', 'mixed', 'const'] + sorted(_FLAVOURS))
@@ -502,6 +579,10 @@ def _table(draw, max_rows, max_cols, large):
     return dict(cols=cols, data=data)
 
 
+def _is_inf_spec(v):
+    return isinstance(v, (list, tuple)) and len(v) == 2 and v[0] == 'inf'
+
+
 def _plain_values(cells):
     """distinct non-NaN, non-None cell specs of a column"""
     out = []
@@ -517,9 +598,12 @@ def _plain_values(cells):
 def _column_cond(draw, cells):
     """[kind, payload] for one column, biased towards the column's own content"""
     present = _plain_values(cells)
+    has_inf = any(_is_inf_spec(v) for v in cells)
     has_none = any(v is None for v in cells)
-    has_nan = any(is_nan_spec(v) for v in cells)
+    has_nan = any(is_nan_spec(v) for v in cells) or has_inf      # a NaN condition on a column holding +-inf is the open case of the statement
     has_str = any(isinstance(v, str) for v in cells)
+    if has_inf and draw(st.integers(0, 9999)) % 2 == 0:
+        return ['nan', [0, 1, 7][draw(st.integers(0, 9999)) % 3]]
     kinds = ['val', 'val', 'list', 'list'] if present else []
     if has_none:
         kinds += ['none', 'none']
@@ -547,7 +631,10 @@ def _column_cond(draw, cells):
         return ['regex', pats[draw(st.integers(0, 9999)) % len(pats)]]
     pool = st.sampled_from(present) if present else _VALUE
     if kind == 'val':
-        return ['val', draw(st.one_of(pool, pool, pool, _VALUE))]
+        # never a scalar +-inf: the library reads it as a NaN condition (is_nan(value)), a value only inside a list
+        finite = [v for v in present if not _is_inf_spec(v)]
+        vpool = st.sampled_from(finite) if finite else _VALUE
+        return ['val', draw(st.one_of(vpool, vpool, vpool, _VALUE))]
     # list of admissible values
     mode = ['some', 'some', 'dup', 'some', 'all', 'long', 'some', 'all', 'empty', 'foreign', 'some', 'all'][draw(st.integers(0, 9999)) % 12]
     if mode == 'empty':
@@ -573,7 +660,11 @@ def _filters_cond(draw, table, allow_none_form=True):
     cols = table['cols']
     k = draw(st.sampled_from([1, 1, 2, 1, 0, 1, 2, 3, 1, 2, 2, 1] if allow_none_form else [1, 1, 2, 1, 3, 2, 1]))
     k = min(k, len(cols))
-    chosen = list(draw(st.permutations(cols))[:k])
+    order = list(draw(st.permutations(cols)))
+    with_inf = [c for c in order if any(_is_inf_spec(v) for v in table['data'][c])]
+    if with_inf and draw(st.integers(0, 9999)) % 3 != 0:          # columns holding +-inf are conditioned more often
+        order = with_inf + [c for c in order if c not in with_inf]
+    chosen = order[:k]
     conds = []
     for c in chosen:
         kind, payload = draw(_column_cond(table['data'][c]))
@@ -643,7 +734,7 @@ def _find_case(draw, tier):
 
 # ----------------------------------------------------------------------------- exhaustive small domain
 
-ENUM_POOL = [None, 1, 1.0, 2, ['nan', 0], 'a', 'ab']
+ENUM_POOL = [None, 1, 1.0, 2, ['nan', 0], 'a', 'ab', ['inf', 1]]
 ENUM_CONDS = [
     ['val', 1], ['val', 1.0], ['val', 2], ['val', 'a'], ['val', 'b'], ['val', 5],
     ['list', []], ['list', [1, 'a']], ['list', [None, 2]], ['list', [1.0, 2, 'ab']], ['list', ['zz']],
@@ -690,20 +781,21 @@ SUBS = [
                       'large': 0.04, 'duplicate_rows': 0.25, 'dup_in_list': 0.015, 'list_len=64+': 0.008, 'equal_not_identical': 0.03,
                       'columns_not_alphabetical': 0.2, 'conds_not_in_column_order': 0.03, 'noop_selection': 0.3, 'falsy_condition_value': 0.08,
                       'nested_column_names': 0.15, 'only_first_row': 0.005, 'only_last_row': 0.005,
-                      'row_satisfies_some_not_all_across_containers': 0.03, 'regex_matches_str_of_nonstr_cell': 0.015}),
+                      'row_satisfies_some_not_all_across_containers': 0.03, 'regex_matches_str_of_nonstr_cell': 0.015,
+                      'inf_cell': 0.08, 'inf_cell_under_nan_condition': 0.02}),
     Sub('predicate', _predicate_case, run_partition, quick=2000, thorough=15000,
         rule='same tables; ONE callable over 1-3 named columns: a catalogue of total predicates (is None, is NaN, is str, > 0, str(a) < str(b), a == b, '
              'constant True / False) or an arbitrary truth table on the rows; in about 40% of the cases the verdict is returned as a truthy / falsy non-bool (0/1, 0/2, None/x, empty/non-empty str or list, or a kind that varies from row to row). oracle: the truth value of the same python predicate applied to the plain records. '
              'non-trivial = at least one row and (both parts non-empty or all / nothing selected)',
         floor=0.5, class_floors={'both_nonempty': 0.15, 'all': 0.03, 'nothing': 0.05, 'fn=table': 0.2, 'nargs=2': 0.1, 'nonbool_result': 0.25,
-                                 'large': 0.025, 'nested_column_names': 0.15, 'noop_selection': 0.3, 'duplicate_rows': 0.25,
+                                 'large': 0.025, 'nested_column_names': 0.15, 'noop_selection': 0.3, 'duplicate_rows': 0.25, 'inf_cell': 0.08,
                                  'ret=int01': 0.02, 'ret=int02': 0.02, 'ret=none_x': 0.02, 'ret=str': 0.02, 'ret=list': 0.02, 'ret=mixed': 0.02}),
     Sub('find', _find_case, run_find, quick=2500, thorough=15000,
         rule='same tables and conditions (filters or one callable, whose verdict is a non-bool truthy / falsy value in about 40% of the callable cases) plus a column: find_<col>(condition) must return the one value held by the selected rows and '
              'raise ValueError when no row or two different values are selected; one_or_none(condition[, exc=][, find=]) must give None / the row / ValueError '
              'for 0 / 1 / several selected rows. non-trivial = the selection is not a single row',
         floor=0.3, class_floors={'none_selected': 0.1, 'multiple_values': 0.1, 'unique_from_many': 0.05, 'single_row': 0.05, 'one_or_none_exc': 0.1,
-                                 'nonbool_result': 0.05, 'large': 0.03, 'nested_column_names': 0.15}),
+                                 'nonbool_result': 0.05, 'large': 0.03, 'nested_column_names': 0.15, 'inf_cell_under_nan_condition': 0.015}),
     EnumSub('small_enum', enum_small, run_partition, thorough_only=True, chunks=64,
             rule='every 1-column table of 0-%i rows over the pool %s x %i single-column conditions x {keyword, dict}; same oracle as filters'
                  % (ENUM_MAX_ROWS, ENUM_POOL, len(ENUM_CONDS))),
